@@ -39,6 +39,8 @@ def market_time(ctx, qn):
 
 def check(ctx):
     M = ctx.M
+    from . import c14
+    ctx.sub(c14.s1_loop_table)       # a scheduled instant that meets a clock event fires (not before burn-in, inclusive)
     # ---- weekly
     c = 'WeeklyRebalance'
     fn = ctx.fn(c + '._generate_rebalances')
@@ -123,6 +125,30 @@ def check(ctx):
             t = as_len_test(cnd, v)
             if t is not None and t[0] == ('call', ('ext', 'pandas.bdate_range'), (sd, sd), ()):
                 biz = t[1] == 'nonempty'
+        if biz is None and p.conds and p.outcome == 'return':
+            # not the tabled bdate_range idiom: evaluate the test as a table over the weekday of the start
+            verdicts = set()
+            for wd in range(7):
+                nv = Valuation(nums={'self.start_dt.weekday()': wd, 'self.start_dt.isoweekday()': wd + 1, 'self.start_dt.dayofweek': wd, 'self.start_dt.day_of_week': wd})
+                got = [nv.evalbool(cnd) for cnd, v, _ in p.conds]
+                if None in got:
+                    verdicts.add(None)
+                    break
+                taken = all(g == v for g, (cnd, v, _) in zip(got, p.conds))
+                if taken:
+                    is_start = T.teq(p.value, ('list', (sd,)))
+                    is_next = any(T.teq(p.value, ('list', (T.t_add(sd, ('call', ('ext', nm), (), ())),))) for nm in
+                                  ('pandas.tseries.offsets.BusinessDay', 'pandas.tseries.offsets.BDay'))
+                    okw = (is_start and wd <= 4) or (is_next and wd >= 5)
+                    verdicts.add(okw)
+                    if not okw:
+                        ctx.violation('C13.S1', 'buy-and-hold: the instant is the start if it is a business day, else the next business day', fn.site(),
+                                      'a start on weekday %d (0=Mon) gives %s' % (wd, fmt(p.value)[:80]), key='C13.S1|bah|weekday-table')
+                        break
+            if None not in verdicts:
+                if verdicts and all(verdicts):
+                    ctx.holds('C13.S1', 'buy-and-hold weekday table [%s]' % cond_str(p)[:60], fn.site())
+                continue
         if p.outcome == 'return' and biz is None and not p.conds:
             ctx.violation('C13.S1', 'buy-and-hold: the instant is the start if it is a business day, else the next business day', fn.site(),
                           'the schedule is %s on every path - it never tests whether the start is a business day' % fmt(p.value)[:100], key='C13.S1|bah|no-test')
